@@ -1,4 +1,72 @@
-import ErgoModel.Exec
+/-
+  C17 — Titles and bodies come back exactly as they went in.
+  Text = `List Char` (Unicode scalar values).  Assumed (trusted base): Go string ⇄ list of scalar values for valid UTF-8.
+-/
+import ErgoProofs.Lemmas.JsonThm
+import ErgoProofs.Lemmas.ReachInv
 namespace Ergo
-theorem C17_placeholder : True := trivial
+
+/-- the JSON string codec round-trips every valid Unicode text, with the log's HTML-escaping encoder and with the
+    output's non-escaping one -/
+theorem C17_codec_roundtrip (esc : Bool) (s : List Char) : Json.decodeString (Json.encodeString esc s) = some s :=
+  Json.decode_encode esc s
+
+/-- an encoded string contains no control character, so it can neither split a JSONL line nor be eaten by the scanner's
+    CR/LF handling, whatever newlines the text contains -/
+theorem C17_encoded_has_no_newline (esc : Bool) (s : List Char) : ∀ c ∈ Json.encodeString esc s, 32 ≤ c.toNat :=
+  Json.encode_no_control esc s
+
+/-- one trip through the log: encode with the log's HTML-escaping encoder, decode on replay -/
+def throughLog (t : List Char) : Option (List Char) := Json.decodeString (Json.encodeString true t)
+
+/-- `n` compactions re-encode and re-read the text `n` more times -/
+def throughCompactions : Nat → List Char → Option (List Char)
+  | 0, t => some t
+  | n + 1, t => (throughLog t).bind (throughCompactions n)
+
+/-- the whole pipeline for a stored text: encode (HTML-escaping) → one log line → decode → n × (compact: re-encode, decode)
+    → encode for output (no escaping) → the consumer's decode: the text, character for character -/
+theorem C17_pipeline (s : List Char) (n : Nat) :
+    ((throughLog s).bind (throughCompactions n)).bind (fun t => Json.decodeString (Json.encodeString false t)) = some s := by
+  have hstore : ∀ t, throughLog t = some t := fun t => Json.decode_encode true t
+  have hn : ∀ n t, throughCompactions n t = some t := by
+    intro n
+    induction n with
+    | zero => intro t; rfl
+    | succ n ih => intro t; simp [throughCompactions, hstore, ih]
+  simp [hstore, hn, Json.decode_encode]
+
+/-- the only documented alteration — titles given by flag or by `set` lose surrounding white space and nothing else -/
+theorem C17_trim_only_surrounding_space (s : List Char) :
+    ∃ pre suf, s = pre ++ Text.trimSpaceL s ++ suf ∧ (∀ c ∈ pre, Text.isSpace c = true) ∧ (∀ c ∈ suf, Text.isSpace c = true) :=
+  let ⟨pre, suf, h1, h2, h3, _, _⟩ := Text.trimSpaceL_spec s
+  ⟨pre, suf, h1, h2, h3⟩
+
+/-- bodies are never trimmed or otherwise rewritten by `set`: the event carries the text as given -/
+theorem C17_set_body_verbatim (id : Id) (now : Time) (b : String) : evBody id now (some b) = [Event.body id b (some now)] := rfl
+
+/-- JSON create stores title and body verbatim (no trimming) -/
+theorem C17_json_create_verbatim (agent : String) (t : TaskInput) (hv : t.valid true false = true)
+    (hplain : t.state = none ∧ t.claim = none ∧ t.resultPath = none) :
+    sectionOf agent (.newTask { piped := true, json := some t }) =
+      .ok (.create false (t.epic.getD "") (t.title.getD "") (t.body.getD "") {}) := by
+  obtain ⟨h1, h2, h3⟩ := hplain
+  simp [sectionOf, hv, h1, h2, h3, SetReq.paired]
+
+/-- replay's legacy-title pass never touches an item whose title is not blank -/
+theorem C17_no_migration (t : Task) (h : Text.isBlank t.title = false) : migrateTask t = t := by
+  simp [migrateTask, h]
+
+/-- compaction keeps title and body of every item of every reachable store (any number of times) -/
+theorem C17_through_compact (log : List Event) (h : ReachOK log) :
+    ∃ g g', replay log = .ok g ∧ replay (compactEvents g) = .ok g' ∧
+      ∀ id, (g'.find? id).map (fun t => (t.title, t.body)) = (g.find? id).map (fun t => (t.title, t.body)) := by
+  obtain ⟨g, hr, hinv⟩ := reach_replay log h
+  obtain ⟨g', h1, hobs, _, _, _⟩ := compact_replay' g hinv.ok hinv.epic0
+  refine ⟨g, g', hr, h1, fun id => ?_⟩
+  have := hobs.1 id
+  cases h1' : g'.find? id <;> cases h2' : g.find? id <;> simp [h1', h2'] at this ⊢
+  simp [obsTask] at this
+  exact ⟨this.2.2.2.2.2.1, this.2.2.2.2.2.2.1⟩
+
 end Ergo
